@@ -46,6 +46,18 @@ Theorem C17_rolling_nodata_value_indep : forall xx1 xx2 nd1 nd2 ws ii,
 Proof. exact nodata_value_indep. Qed.
 Print Assumptions C17_rolling_nodata_value_indep.
 
+(** locality: an output cell is a function of its own trailing window. Earlier history does not matter ... *)
+Theorem C17_rolling_history_irrelevant : forall pre xx ws nd ii,
+  (ws <= ii + 1)%nat -> rolling_at (pre ++ xx) ws nd (length pre + ii) = rolling_at xx ws nd ii.
+Proof. exact rolling_at_prefix. Qed.
+Print Assumptions C17_rolling_history_irrelevant.
+
+(** ... nor does anything after the cell (the kernel never looks ahead) *)
+Theorem C17_rolling_future_irrelevant : forall xx post ws nd ii,
+  (ii < length xx)%nat -> rolling_at (xx ++ post) ws nd ii = rolling_at xx ws nd ii.
+Proof. exact rolling_at_suffix. Qed.
+Print Assumptions C17_rolling_future_irrelevant.
+
 (** grouped mean: mean (exact sum and count) of the non-nodata members of the label's group *)
 Theorem C17_mean_grp_spec : forall xx groups ng nd i,
   (i < length xx)%nat -> length groups = length xx -> 0 <= nth i groups 0 < ng ->
